@@ -1,7 +1,8 @@
 (* C08 - Outgoing session ids count 1..0xFFFF per destination; reboot flag clears on wrap.
    nth_id k = ((k-1) mod 65535) + 1, nth_flag k = (k <=? 65535)  (Spec/C08Spec.v). *)
 From PS Require Import Lib.Base Lib.Struct Generated.Consts Model.SdTypes Model.Config Model.Session Model.Someip Model.SdCodec
-  Model.StackTypes Model.Stack Spec.C08Spec Proofs.C07Proofs Proofs.StackOpsProofs Generated.LogicGen Proofs.GenEquiv.
+  Model.StackTypes Model.Stack Model.StackIO Spec.C08Spec Proofs.C07Proofs Proofs.StackOpsProofs Generated.LogicGen Proofs.GenEquiv
+  Proofs.WorldInv Proofs.WorldLog.
 
 (* for every interleaving of destinations, the k-th id handed out for a destination depends on k alone *)
 Theorem C08_cycle : forall ds, run_assign sess_init ds = spec_assign [] ds.
@@ -28,6 +29,18 @@ Theorem C08_id_and_flag_on_the_wire : forall entries flag sid b,
               /\ build_msg (mkMsg SD_SERVICE SD_METHOD 0 sid 1 MT_NOTIFICATION 1 RC_E_OK p) = Ok b /\ sd_reboot a = flag.
 Proof. exact sd_datagram_fields. Qed.
 
+(* over WHOLE RUNS of the full stack (Model/Stack.v), for every scenario and every schedule of the event loop: the
+   (reboot flag, session id) pairs given to the SD transmissions, in the order they were made, are exactly what the
+   specification's per-destination counters hand out for that sequence of destinations - whatever else the stack does
+   in between (received messages, reboot detections, timers).  slog reads the ghost history written by send_sd. *)
+Theorem C08_session_ids_on_the_stack : forall s sc, d_scenario s = Some sc ->
+  let w := fst (run_scenario sc) in
+  map snd (slog (glog w)) = spec_assign [] (map fst (slog (glog w))).
+Proof. exact reachable_session_ids. Qed.
+(* receiving never touches the outgoing table *)
+Theorem C08_receiving_leaves_outgoing_ids_alone : forall s a mc f i, outgoing (snd (check_received s a mc f i)) = outgoing s.
+Proof. exact check_received_outgoing. Qed.
+
 Example C08_wrap : map (fun k => (nth_flag k, nth_id k)) [65534; 65535; 65536; 131070; 131071]
   = [(true, 65534); (true, 65535); (false, 1); (false, 65535); (false, 1)].
 Proof. reflexivity. Qed.
@@ -37,6 +50,8 @@ Theorem C08_model_is_the_translated_source : forall s d, gen_assign_outgoing s d
 Proof. exact gen_assign_outgoing_eq. Qed.
 
 Print Assumptions C08_cycle.
+Print Assumptions C08_session_ids_on_the_stack.
+Print Assumptions C08_receiving_leaves_outgoing_ids_alone.
 Print Assumptions C08_never_zero.
 Print Assumptions C08_first_is_one.
 Print Assumptions C08_no_gap_no_repeat.
